@@ -62,10 +62,16 @@ def _mc_threads(prog, pc, info, d, opts, out):
     from . import tscenario, cppthreads
     from .scenarios import Finding
     findings = list(tscenario.mutex_wrapped_protocol(prog, pc, out['stats']))
-    clients = [f'c{i}' for i in range(opts.get('n_clients', 2))]
     val = {'checked': 0, 'agree': 0, 'detail': '', 'events': 0, 'tsan_runs': 0, 'schedules': 0}
     out['validation'] = val
-    for cfgi, (cycles, n_out, preempt) in enumerate(opts.get('configs', [(1, 1, 2)])):
+    clients = ['c0', 'c1']
+    configs = list(opts.get('configs', [(1, 1, 2, 2)]))
+    if out['idx'] % opts.get('sparse_every', 6) == 0:
+        configs += list(opts.get('sparse_configs', []))      # the expensive configurations on every k-th program
+    val['configs'] = [list(c) for c in configs]
+    for cfgi, cfg in enumerate(configs):
+        cycles, n_out, preempt = cfg[:3]
+        clients = [f'c{i}' for i in range(cfg[3] if len(cfg) > 3 else 2)]
         samples: List = []
         before = out['stats']['paths']
         fs = tscenario.mc_threads(prog, pc, out['stats'], cycles=cycles, n_out=n_out, max_preempt=preempt,
@@ -108,7 +114,7 @@ def _mc_threads(prog, pc, info, d, opts, out):
     # free runs under ThreadSanitizer
     n_tsan = opts.get('tsan_runs', 0)
     if n_tsan:
-        cycles, n_out, _p = opts.get('configs', [(1, 1, 2)])[-1]
+        cycles, n_out = opts.get('configs', [(1, 1, 2)])[-1][:2]
         exe, diag = cppthreads.build(info, pc, d, max(cycles, 2), max(n_out, 2), clients, tsan=True)
         if exe:
             reports = set()
